@@ -11,6 +11,18 @@ around the widths of machine integers and of the float mantissa (2**31, 2**32, 2
 oracle for those is the interval form of the same scan (pure arithmetic on the row spans, no base is enumerated).
 A scaffold that cannot even be indexed is a failure: no query on it can be answered.
 
+"Gap rows" are ALL gap rows: the statement makes no difference between kinds of gap, so a row is a gap row whatever
+its gap_type says (the AGP 2.x types scaffold, contig, centromere, telomere, short_arm, heterochromatin, repeat,
+contamination; the AGP 1.1 types clone and fragment; what the TPF parser passes through lower-cased: type_1,
+biological, ...; an unknown word, another spelling, the empty string), whatever its length, and also when it is an
+instance of a subclass of Gap.  A row kind is ("G", length), ("G", length, gap_type) or ("G", length, gap_type,
+"subclass"); without a type the row gets "scaffold" / "contig" by position as before.  The typed family: every
+scaffold of 1..4 rows (thorough 5) over gaps and fragments of length 1..2 with at least one gap x assignments of
+gap types to its gaps (every type for all gaps at once, mixtures of several types in one scaffold, one gap an
+instance of a subclass) x every query; chromosome-like scaffolds (telomere, contigs, centromere, spacer gaps of 100
+and 200, heterochromatin, telomere - row lengths up to millions) x all pairs of boundary points; thorough: seeded
+scaffolds of 1..12 rows with gap types and lengths drawn at random.
+
 The statement holds for EVERY lookup, not only for the first one on a freshly indexed scaffold, and whatever the
 caller has done with the results it was handed before (an OverlapResult is a working object: BuildAssembly pops rows
 off its ends, swaps rows for cut pieces and moves start / end).  So there are *sessions*: several lookups on one
@@ -67,6 +79,70 @@ def huge_shapes(L):
     ]
 
 
+# what a gap row may call itself: AGP 2.x, AGP 1.1, what parse_tpf hands through, unknown words, other spellings, nothing
+GAP_TYPES = (
+    "scaffold", "contig", "centromere", "telomere", "short_arm", "heterochromatin", "repeat", "contamination",
+    "clone", "fragment", "type_1", "biological", "unknown", "Scaffold", "",
+)
+TYPED_KINDS = [("G", 1), ("G", 2), ("F", 1), ("F", 2)]
+
+
+class FeatureGap(Gap):
+    """a gap row of a subclass: still a gap row"""
+
+    __slots__ = ()
+
+
+def typed_scaffolds(tier):
+    """
+    every scaffold of 1..4 (thorough: 1..5) rows over TYPED_KINDS that has a gap row, with gap types given to its gaps:
+    up to 3 rows (thorough 4): each type of GAP_TYPES for all gaps at once; thorough, two gaps: every ordered pair of
+    types; else mixtures - gap j gets type number c + j * step (step 1, 4, 7; c the running number of the scaffold), so
+    that over the scaffolds every type stands first, last, alone and between any other; and one assignment where one
+    gap is an instance of a subclass of Gap.  Longer scaffolds: one uniform type and two mixtures each, rotating.
+    """
+    quick = tier == "quick"
+    T = len(GAP_TYPES)
+    c = 0
+    for n in range(1, (4 if quick else 5) + 1):
+        full = n <= (3 if quick else 4)
+        for shape in itertools.product(TYPED_KINDS, repeat=n):
+            gaps = [i for i, k in enumerate(shape) if k[0] == "G"]
+            if not gaps:
+                continue
+            c += 1
+            g = len(gaps)
+            assigned = [[t] * g for t in GAP_TYPES] if full else [[GAP_TYPES[c % T]] * g]
+            if g == 2 and full and not quick:
+                assigned += [[t, u] for t in GAP_TYPES for u in GAP_TYPES if t != u]
+            elif g >= 2 or not full:
+                assigned += [[GAP_TYPES[(c + j * step) % T] for j in range(g)] for step in ((1, 4, 7) if full else (1, 7))]
+            for types in assigned:
+                kinds = list(shape)
+                for i, t in zip(gaps, types):
+                    kinds[i] = (*shape[i], t)
+                yield tuple(kinds)
+            if full:
+                kinds = list(shape)
+                for j, i in enumerate(gaps):
+                    t = GAP_TYPES[(c + 2 * j) % T]
+                    kinds[i] = (*shape[i], t, "subclass") if j == c % g else (*shape[i], t)
+                yield tuple(kinds)
+
+
+def chromosome_scaffolds():
+    """chromosome-like scaffolds: feature gaps at the ends and inside, spacer gaps of 100 / 200, rows from 1 bp to millions"""
+    yield (
+        ("G", 10_000, "telomere"), ("F", 5_000), ("G", 3_000_000, "centromere"), ("G", 200, "scaffold"), ("F", 1), ("G", 100, "contig"),
+        ("F", 7_000), ("G", 50_000, "heterochromatin"), ("F", 3), ("G", 10_000, "telomere"),
+    )
+    yield (("G", 100, "short_arm"), ("G", 200, "scaffold"), ("F", 40_000), ("G", 1, "repeat"), ("G", 200, "contamination"), ("F", 2), ("G", 200, "scaffold"), ("G", 100, "telomere"))
+    for t in GAP_TYPES:
+        yield (("G", 200, t), ("F", 1_000), ("G", 200, t), ("G", 100, "contig"), ("F", 1), ("G", 200, t))
+        yield (("F", 30), ("G", 100, t), ("F", 30), ("G", 200, "scaffold"), ("G", 5_000, t))
+    yield (("G", 200, "centromere", "subclass"), ("F", 9), ("G", 200, "scaffold", "subclass"), ("F", 9), ("G", 100, "contig", "subclass"))
+
+
 def boundary_points(spans):
     total = spans[-1][1]
     pts = {1, 2, total, total + 1, total + 2}
@@ -82,27 +158,28 @@ def try_build(kinds):
         return build(kinds), None
     except Exception as e:
         return None, (
-            f"indexing a scaffold with rows {kinds} (total length {sum(n for _, n in kinds)}) raised "
+            f"indexing a scaffold with rows {kinds} (total length {sum(k[1] for k in kinds)}) raised "
             f"{type(e).__name__}: {e} - no query on this scaffold can be answered"
         )
 
 
 def build(kinds):
-    """list of (kind, length) -> (Scaffold, [is_gap,...], [(span_start, span_end), ...], IndexedAssembly)"""
+    """list of (kind, length[, gap type[, "subclass"]]) -> (Scaffold, [is_gap,...], [(span_start, span_end), ...], IndexedAssembly)"""
     rows = []
-    for i, (k, n) in enumerate(kinds):
+    for i, (k, n, *more) in enumerate(kinds):
         if k == "G":
-            rows.append(Gap(n, "scaffold" if i % 2 else "contig"))
+            cls = FeatureGap if more[1:] == ["subclass"] else Gap
+            rows.append(cls(n, more[0] if more else "scaffold" if i % 2 else "contig"))
         else:
             # distinct contig names, contig coordinates unrelated to scaffold coordinates
             rows.append(Fragment(f"c{i}", 10 * i + 5, 10 * i + 4 + n, (1, -1, 0)[i % 3]))
     spans = []
     p = 0
-    for k, n in kinds:
+    for _, n, *_ in kinds:
         spans.append((p + 1, p + n))
         p += n
     scf = Scaffold("scf", rows)
-    return scf, [k == "G" for k, _ in kinds], spans, IndexedAssembly("asm", scaffolds=[scf])
+    return scf, [k[0] == "G" for k in kinds], spans, IndexedAssembly("asm", scaffolds=[scf])
 
 
 def expected(is_gap, spans, a, b):
@@ -515,7 +592,10 @@ def run(tier, seed, **opts):
         f"every scaffold of 1..{max_rows} rows, each row a gap of length 1..3 or a fragment of length 1..3 (strands "
         "+,-,? by position), x every query 1 <= a <= b <= total+2; plus scaffolds of 1..6 rows with one or two rows of "
         "huge length (2**31-1 .. 10**30+1: cumulative coordinates beyond every machine-integer and float-mantissa "
-        "width) x every pair of query points at row boundaries +-1, row middles and past the end; plus sessions on one "
+        "width) x every pair of query points at row boundaries +-1, row middles and past the end; plus gap rows of every kind "
+        f"({len(GAP_TYPES)} gap types: AGP 2.x, AGP 1.1, TPF pass-through, unknown, other spelling, empty; a subclass of Gap): every scaffold of "
+        f"1..{4 if tier == 'quick' else 5} rows of length 1..2 with a gap x type assignments (uniform, mixed) x every query, and chromosome-like "
+        "scaffolds with feature gaps at the ends and inside x boundary queries; plus sessions on one "
         f"indexed scaffold: every scaffold of 1..{3 if tier == 'quick' else 4} rows x every query with an answer, looked up, the "
         "result edited as a consumer does (discard_start / discard_end / trim_large_overhangs / trim_fragment / direct edits "
         "of rows, start, end, bait), and looked up again with an equal bait, the same bait object and a bait of another "
@@ -567,6 +647,28 @@ def run(tier, seed, **opts):
                 inp = {"rows": [list(k) for k in kinds], "a": a, "b": b}
                 check(kinds, a, b, col, inp, built=built)
                 col.case((kinds, a, b), nontrivial=a <= total, sample=inp if (n_huge, a) == (29, 2) and b > total else None)
+    # gap rows of every kind: the typed family, every query; chromosome-like scaffolds, every pair of boundary points
+    n_typed = 0
+    for kinds in typed_scaffolds(tier):
+        built = build(kinds)
+        total = built[2][-1][1]
+        n_typed += 1
+        for a in range(1, total + 3):
+            for b in range(a, total + 3):
+                inp = {"rows": [list(k) for k in kinds], "a": a, "b": b}
+                check(kinds, a, b, col, inp, built=built)
+                col.case((kinds, a, b), nontrivial=a <= total, sample=inp if (n_typed, a, b) == (333, 1, 3) else None)
+        if col.full:
+            break
+    n_chrom = 0
+    for kinds in chromosome_scaffolds():
+        built = build(kinds)
+        n_chrom += 1
+        total = built[2][-1][1]
+        for a, b in itertools.combinations_with_replacement(boundary_points(built[2]), 2):
+            inp = {"rows": [list(k) for k in kinds], "a": a, "b": b}
+            check(kinds, a, b, col, inp, built=built)
+            col.case((kinds, a, b), nontrivial=a <= total, sample=inp if (n_chrom, a) == (1, 10_001) and b == 3_015_200 else None)
     # sessions (enumerated): every scaffold of <= 3 rows (thorough: <= 4) x every query that has an answer x edits of
     # the first result (quick: two of the edits, thorough: all for <= 3 rows and four for 4 rows, rotating)
     n_sessions = 0
@@ -680,8 +782,29 @@ def run(tier, seed, **opts):
                 inp = {"rows": [list(k) for k in kinds], "a": a, "b": b}
                 check(kinds, a, b, col, inp, built=built)
                 col.case((kinds, a, b), nontrivial=a <= total)
+        # gap types and lengths drawn at random (a generator of their own: the seeded streams above stay as they were)
+        rng3 = random.Random(seed * 1000003 + 13)
+        for _ in range(2000):
+            n = rng3.randint(1, 12)
+            kinds = tuple(
+                ("G", rng3.choice((1, 2, 100, 200, 5000, 10**6)), rng3.choice(GAP_TYPES), *(["subclass"] if rng3.random() < 0.1 else []))
+                if rng3.random() < 0.5
+                else ("F", rng3.choice((1, 2, 3, 7, 100, 10**6)))
+                for _ in range(n)
+            )
+            built = build(kinds)
+            pts = boundary_points(built[2])
+            total = built[2][-1][1]
+            for _ in range(40):
+                a, b = sorted((rng3.choice(pts), rng3.choice(pts)))
+                inp = {"rows": [list(k) for k in kinds], "a": a, "b": b}
+                check(kinds, a, b, col, inp, built=built)
+                col.case((kinds, a, b), nontrivial=a <= total)
     return col.result(
         bounds=f"scaffolds of <= {max_rows} rows over {len(ROW_KINDS)} row kinds ({n_sc} scaffolds), all queries up to total+2"
+        f"; plus {n_typed} scaffolds of <= {4 if tier == 'quick' else 5} rows (gaps and fragments of length 1..2) whose gaps carry {len(GAP_TYPES)} gap types "
+        f"(one type for all gaps, mixtures, one gap of a subclass of Gap), all queries up to total+2, and {n_chrom} chromosome-like scaffolds "
+        "(telomere / centromere / heterochromatin / spacer gaps of 100 and 200, rows up to 3 000 000), all pairs of boundary points"
         f"; plus {n_huge} scaffolds of 1..6 rows around {len(HUGE)} huge row lengths (2**31-1 .. 10**30+1), all pairs of "
         "boundary/middle query points"
         f"; plus {n_sessions} sessions of 5-8 steps (lookups and edits of earlier results) on the scaffolds of <= {3 if tier == 'quick' else 4} rows "
@@ -691,7 +814,8 @@ def run(tier, seed, **opts):
             ""
             if tier == "quick"
             else "; plus 3000 random scaffolds of 6..14 rows with row lengths up to 10**6 and 1500 random scaffolds of "
-            "1..10 rows with huge row lengths mixed in, boundary queries"
+            "1..10 rows with huge row lengths mixed in, boundary queries; plus 2000 random scaffolds of 1..12 rows with gap types, "
+            "gap lengths (1 .. 10**6) and gap subclass drawn at random"
         ),
         exhaustive=exhaustive,
     )
